@@ -4,7 +4,7 @@
 set -e
 cd "$(dirname "$0")"
 export GOFLAGS=-mod=mod GOPROXY=off GOSUMDB=off GOTOOLCHAIN=local
-mkdir -p out/bin out/gomod evidence
+mkdir -p out/bin out/gomod evidence lean/Protobom/Gen
 REPO="${VERIF_REPO:-/repo}"
 sed "s#^replace github.com/protobom/protobom => .*#replace github.com/protobom/protobom => $REPO#" go/go.mod > out/gomod/go.mod
 cat "$REPO/go.sum" go/go.sum 2>/dev/null | sort -u > out/gomod/go.sum
